@@ -1,4 +1,5 @@
 import IwModel.Model.KvApi
+import IwModel.Model.FormatEnc
 /-! An independent reader of the iwkv file format (src/kv/data-format.txt, iwkv_internal.h,
 iwfsmfile.c header) and the well-formedness audit of property C06.
 
@@ -10,58 +11,31 @@ lowest-key prefix), slot geometry inside data blocks, and the allocation ledger:
 marked in the free-space bitmap equals exactly the blocks occupied by header, bitmap, database
 blocks, metadata blocks, node pages in use and data blocks. -/
 namespace IwModel.Format
-open IwModel
+open IwModel IwModel.FormatEnc
 
-abbrev Img := ByteArray
+abbrev Img := FormatEnc.Mem
 
-def byteAt (m : Img) (i : Nat) : Nat := if h : i < m.size then (m[i]'h).toNat else 0
+/-- the image of a real file -/
+def imgOf (a : ByteArray) : Img := ⟨a.size, fun i => if h : i < a.size then (a[i]'h).toNat else 0⟩
 
-def leAt (m : Img) (off width : Nat) : Nat :=
-  (List.range width).foldr (fun i acc => byteAt m (off + i) + 256 * acc) 0
+def byteAt (m : Img) (i : Nat) : Nat := m.get i
 
-def slice (m : Img) (off len : Nat) : Bytes := (List.range len).map fun i => byteAt m (off + i)
+def slice (m : Img) (off len : Nat) : Bytes := m.slice off len
+
+def leAt (m : Img) (off width : Nat) : Nat := leDec (slice m off width)
 
 def inFile (m : Img) (off len : Nat) : Bool := off + len ≤ m.size
 
-/-- variable-length number at `off`: (value, bytes consumed) -/
-def vnumAt (m : Img) (off : Nat) : Option (Nat × Nat) := Vnum.dec (slice m off 10)
+abbrev FsmHdr := FormatEnc.FsmHdr
 
-structure FsmHdr where
-  bpow : Nat
-  bmoff : Nat
-  bmlen : Nat
-  hdrlen : Nat
-deriving Repr
-
-structure Sblk where
+/-- a node: its record, the header and index of its data block, and the records it holds -/
+structure Sblk extends SblkRec, KvIndex where
   blk : Nat              -- block number of the node record
-  flags : Nat
-  lvl : Nat
-  lkl : Nat
-  pnum : Nat
-  p0 : Nat
-  kblk : Nat
-  pi : List Nat          -- first `pnum` slot numbers
-  n : List Nat           -- next links, levels 0..lvl
-  bpos : Nat
-  lk : Bytes
-  -- data block
-  szpow : Nat
-  idxsz : Nat
-  slots : List (Nat × Nat)             -- 32 (off, len) pairs
   recs : List (Bytes × Bytes)          -- (stored key, value) in `pi` order
 deriving Repr
 
-structure DbImg where
+structure DbImg extends DbHdr where
   blk : Nat
-  flags : Nat
-  id : Nat
-  next : Nat
-  p0 : Nat
-  n : List Nat           -- 24 head links
-  c : List Nat           -- 24 per-level counters
-  metaBlk : Nat
-  metaBlkn : Nat
   nodes : List Sblk      -- level-0 chain
 deriving Repr
 
@@ -81,56 +55,53 @@ def fsmHdrSize : Nat := Gen.IWFSM_CUSTOM_HDR_DATA_OFFSET
 
 def parseFsm (m : Img) : Except String FsmHdr :=
   if !inFile m 0 fsmHdrSize then .error "file shorter than the allocator header"
-  else if leAt m 0 4 ≠ fsmMagic then .error "bad allocator magic"
-  else .ok { bpow := byteAt m 4, bmoff := leAt m 5 8, bmlen := leAt m 13 8, hdrlen := leAt m 73 4 }
+  else match decFsmHdr (slice m 0 fsmHdrSize) with
+    | some h => .ok h
+    | none => .error "bad allocator magic"
 
 /-- one key/value pair of a data block: `[klen:vn, key, value]`, `len` bytes long -/
 def parseKv (m : Img) (at_ len : Nat) : Except String (Bytes × Bytes) :=
-  match vnumAt m at_ with
-  | none => .error "unterminated key length"
-  | some (klen, st) =>
-    if st + klen > len then .error s!"key of {klen} bytes does not fit its {len}-byte slot"
-    else .ok (slice m (at_ + st) klen, slice m (at_ + st + klen) (len - st - klen))
+  match decKvE (slice m at_ (max len Gen.IW_VNUMBUFSZ)) len with
+  | .ok r => .ok r
+  | .error .unterminated => .error "unterminated key length"
+  | .error (.nofit klen) => .error s!"key of {klen} bytes does not fit its {len}-byte slot"
 
-/-- the 32 (offset, length) index pairs of a data block starting at `pos` -/
-def parseIdx (m : Img) : Nat → Nat → List (Nat × Nat) → Except String (List (Nat × Nat) × Nat)
-  | 0, pos, acc => .ok (acc.reverse, pos)
-  | k + 1, pos, acc =>
-    match vnumAt m pos with
-    | none => .error "bad slot offset"
-    | some (off, s1) =>
-      match vnumAt m (pos + s1) with
-      | none => .error "bad slot length"
-      | some (len, s2) => parseIdx m k (pos + s1 + s2) ((off, len) :: acc)
+/-- records of a node in `pi` order -/
+def parseRecs (m : Img) (blk ka : Nat) (ki : KvIndex) (pi : List Nat) : Except String (List (Bytes × Bytes)) :=
+  pi.mapM fun s =>
+    match ki.slots[s]? with
+    | none => throw s!"node {blk}: slot number {s}"
+    | some (off, len) =>
+      if len = 0 ∨ off = 0 ∨ off > 2 ^ ki.szpow then throw s!"node {blk}: slot {s} is empty or outside (off {off} len {len})"
+      else parseKv m (ka + 2 ^ ki.szpow - off) len
+
+/-- why `decSblk` rejected a node record -/
+def sblkErr (m : Img) (blk : Nat) : String :=
+  let a := blk * bs
+  let lvl := byteAt m (a + Gen.SOFF_LVL_U1)
+  let lkl := byteAt m (a + Gen.SOFF_LKL_U1)
+  let pnum := byteAt m (a + Gen.SOFF_PNUM_U1)
+  if lvl ≥ Gen.SLEVELS then s!"node {blk}: level {lvl}"
+  else if lkl > Gen.PREFIX_KEY_LEN_V2 then s!"node {blk}: lkl {lkl}"
+  else s!"node {blk}: pnum {pnum}"
 
 def parseSblk (m : Img) (blk : Nat) : Except String Sblk := do
   let a := blk * bs
   if !inFile m a Gen.SBLK_SZ then throw s!"node record {blk} outside the file"
-  let lvl := byteAt m (a + Gen.SOFF_LVL_U1)
-  let lkl := byteAt m (a + Gen.SOFF_LKL_U1)
-  let pnum := byteAt m (a + Gen.SOFF_PNUM_U1)
-  if lvl ≥ Gen.SLEVELS then throw s!"node {blk}: level {lvl}"
-  if lkl > Gen.PREFIX_KEY_LEN_V2 then throw s!"node {blk}: lkl {lkl}"
-  if pnum > Gen.KVBLK_IDXNUM then throw s!"node {blk}: pnum {pnum}"
-  let kblk := leAt m (a + Gen.SOFF_KBLK_U4) 4
-  let ka := kblk * bs
-  if !inFile m ka Gen.KVBLK_HDRSZ then throw s!"node {blk}: data block {kblk} outside the file"
-  let szpow := byteAt m ka
-  let idxsz := leAt m (ka + 1) 2
-  if szpow > 40 ∨ !inFile m ka (2 ^ szpow) then throw s!"node {blk}: data block of 2^{szpow} bytes outside the file"
-  let (slots, endPos) ← parseIdx m Gen.KVBLK_IDXNUM (ka + Gen.KVBLK_HDRSZ) []
-  if endPos - (ka + Gen.KVBLK_HDRSZ) ≠ idxsz then throw s!"node {blk}: index size field {idxsz} but index occupies {endPos - (ka + Gen.KVBLK_HDRSZ)}"
-  let pi := slice m (a + Gen.SOFF_PI0_U1) pnum
-  let recs ← pi.mapM fun s =>
-    match slots[s]? with
-    | none => throw s!"node {blk}: slot number {s}"
-    | some (off, len) =>
-      if len = 0 ∨ off = 0 ∨ off > 2 ^ szpow then throw s!"node {blk}: slot {s} is empty or outside (off {off} len {len})"
-      else parseKv m (ka + 2 ^ szpow - off) len
-  return { blk, flags := byteAt m (a + Gen.SOFF_FLAGS_U1), lvl, lkl, pnum, p0 := leAt m (a + Gen.SOFF_P0_U4) 4, kblk, pi,
-           n := (List.range (lvl + 1)).map fun i => leAt m (a + Gen.SOFF_N0_U4 + 4 * i) 4,
-           bpos := byteAt m (a + Gen.SOFF_BPOS_U1_V2), lk := slice m (a + Gen.SOFF_LK_V2) lkl,
-           szpow, idxsz, slots, recs }
+  match decSblk (slice m a Gen.SBLK_SZ) with
+  | none => throw (sblkErr m blk)
+  | some r =>
+    let ka := r.kblk * bs
+    if !inFile m ka Gen.KVBLK_HDRSZ then throw s!"node {blk}: data block {r.kblk} outside the file"
+    let szpow := byteAt m ka
+    if szpow > 40 ∨ !inFile m ka (2 ^ szpow) then throw s!"node {blk}: data block of 2^{szpow} bytes outside the file"
+    match decKvIndexE (slice m ka kvIndexMax) with
+    | .error (.slot .off) => throw "bad slot offset"
+    | .error (.slot .len) => throw "bad slot length"
+    | .error (.size idxsz occ) => throw s!"node {blk}: index size field {idxsz} but index occupies {occ}"
+    | .ok ki =>
+      let recs ← parseRecs m blk ka ki r.pi
+      return { toSblkRec := r, toKvIndex := ki, blk, recs }
 
 def parseChain (m : Img) : Nat → Nat → List Sblk → Except String (List Sblk)
   | 0, blk, _ => if blk = 0 then .ok [] else .error "level-0 chain longer than the file can hold (cycle?)"
@@ -145,13 +116,11 @@ def parseChain (m : Img) : Nat → Nat → List Sblk → Except String (List Sbl
 def parseDb (m : Img) (blk : Nat) : Except String DbImg := do
   let a := blk * bs
   if !inFile m a Gen.DOFF_END then throw s!"database block {blk} outside the file"
-  if leAt m a 4 ≠ dbMagic then throw s!"database block {blk}: bad magic"
-  let n := (List.range Gen.SLEVELS).map fun i => leAt m (a + Gen.DOFF_N0_U4 + 4 * i) 4
-  let nodes ← parseChain m (m.size / Gen.SBLK_SZ + 1) (n.headD 0) []
-  return { blk, flags := byteAt m (a + Gen.DOFF_DBFLG_U1), id := leAt m (a + Gen.DOFF_DBID_U4) 4,
-           next := leAt m (a + Gen.DOFF_NEXTDB_U4) 4, p0 := leAt m (a + Gen.DOFF_P0_U4) 4, n,
-           c := (List.range Gen.SLEVELS).map fun i => leAt m (a + Gen.DOFF_C0_U4 + 4 * i) 4,
-           metaBlk := leAt m (a + Gen.DOFF_METABLK_U4) 4, metaBlkn := leAt m (a + Gen.DOFF_METABLKN_U4) 4, nodes }
+  match decDbHdr (slice m a Gen.DOFF_END) with
+  | none => throw s!"database block {blk}: bad magic"
+  | some h =>
+    let nodes ← parseChain m (m.size / Gen.SBLK_SZ + 1) (h.n.headD 0) []
+    return { toDbHdr := h, blk, nodes }
 
 def parseDbs (m : Img) : Nat → Nat → List DbImg → Except String (List DbImg)
   | 0, blk, acc => if blk = 0 then .ok acc.reverse else .error "database chain too long (cycle?)"
@@ -298,5 +267,50 @@ def dumpDb (d : DbImg) : String :=
     | none => " ?")
 
 def metaOf (m : Img) (d : DbImg) (n : Nat) : Bytes := slice m (d.metaBlk * bs) (min n (d.metaBlkn * bs))
+
+/-! ### Re-encoding (`drv fmt reenc`): the encoders of Model/FormatEnc.lean against the bytes of a real file -/
+
+structure ReencCounts where
+  dbs : Nat := 0
+  nodes : Nat := 0
+  idx : Nat := 0
+  recs : Nat := 0
+deriving Repr
+
+/-- compare `want` with the `want.length` bytes of the file at `addr` -/
+def diffAt (m : Img) (what : String) (addr : Nat) (want : Bytes) : Except String Unit :=
+  let got := slice m addr want.length
+  if got = want then .ok ()
+  else
+    let i := ((want.zip got).takeWhile fun (a, b) => a = b).length
+    .error s!"{what}: byte {i} (file offset {addr + i}) encoder {want.getD i 0} file {got.getD i 0}"
+
+def reencNode (m : Img) (s : Sblk) : Except String Nat := do
+  let a := s.blk * bs
+  let e := encSblk s.toSblkRec
+  -- bytes `_sblk_sync_mm` writes: [0, n[lvl]] and [bpos, lk + lkl); the rest of the record is stale
+  let l1 := Gen.SOFF_N0_U4 + 4 * (s.lvl + 1)
+  diffAt m s!"node {s.blk} head" a (peek e 0 l1)
+  diffAt m s!"node {s.blk} bpos/lk" (a + Gen.SOFF_BPOS_U1_V2) (peek e Gen.SOFF_BPOS_U1_V2 (Gen.SOFF_LK_V2 - Gen.SOFF_BPOS_U1_V2 + s.lkl))
+  let ka := s.kblk * bs
+  diffAt m s!"node {s.blk} data block {s.kblk} index" ka (encKvIndex (KvIndex.ofSlots s.szpow s.slots))
+  if (KvIndex.ofSlots s.szpow s.slots).idxsz ≠ s.idxsz then throw s!"node {s.blk}: encoder index size"
+  for (slot, (k, v)) in s.pi.zip s.recs do
+    let (off, len) := s.slots.getD slot (0, 0)
+    let e := encKv k v
+    if e.length ≠ len then throw s!"node {s.blk} slot {slot}: encoder record length {e.length}, slot length {len}"
+    diffAt m s!"node {s.blk} slot {slot}" (ka + 2 ^ s.szpow - off) e
+  return s.recs.length
+
+def reenc (m : Img) (f : FileImg) : Except String ReencCounts := do
+  diffAt m "allocator header" 0 (encFsmHdr f.fsm)
+  let mut c : ReencCounts := {}
+  for d in f.dbs do
+    diffAt m s!"database block {d.blk}" (d.blk * bs) (encDbHdr d.toDbHdr)
+    c := { c with dbs := c.dbs + 1 }
+    for s in d.nodes do
+      let n ← reencNode m s
+      c := { c with nodes := c.nodes + 1, idx := c.idx + 1, recs := c.recs + n }
+  return c
 
 end IwModel.Format
